@@ -11,11 +11,18 @@ R13.1 cue coverage: for each of the ten inconsistency classes of the
       "violation" by a check method that the collector's name pattern
       selects, and the uncorrupted model dataset gets no violation from that
       method; IMPORTANT_KEYS are disjoint from OPTIONAL_KEYS and exist in the
-      metadata tables.
+      metadata tables.  The fluorescence classes are also seeded into
+      datasets with a single channel (fl2 only, fl3 only); a class only
+      counts as reported when the collector runs the reporting method for
+      that dataset (interpreted has_fluorescence).  Laser count
+      specification (as coded and as described in meta_const): a laser
+      counts iff its lambda and its power key are both present and the
+      power is non-zero.
 R13.2 collector and CLI: ``IntegrityChecker.check`` calls every ``check_*``
       entry of the class dictionary exactly once (``check_fl_*`` only with
       fluorescence), forwards its keyword arguments, has no early exit and
-      returns all cues; every ``check_*`` method returns a list on every
+      returns all cues; ``has_fluorescence`` is true exactly for datasets
+      with at least one of fl1_max/fl2_max/fl3_max; every ``check_*`` method returns a list on every
       path; every level used by an ICue is known to the ordering and to
       ``check_dataset``, which routes violation/alert/info into the three
       lists it returns in the documented order; the CLI exit code is the
@@ -132,7 +139,8 @@ class Ds(Namespace):
         return ec
 
     def __contains__(self, k):
-        return k in self.feats or k in self.config
+        # like RTDCBase.__contains__: features only, never config sections
+        return k in self.feats
 
     def __getitem__(self, k):
         return self.feats[k]
@@ -223,29 +231,41 @@ class Model:
                             for n, f in self.methods.items()}})
 
     # -- dataset scenarios -------------------------------------------
-    def base(self):
+    def base(self, channels=(1, 2)):
+        """consistent model dataset with the given fluorescence channels
+        (one laser per channel... exactly one active laser)"""
         file = object()
         feats = {
             "deform": Arr(N), "volume": Arr(N),
             "index": NdArray.of(list(range(1, N + 1)), "int"),
             "image": Arr(N, (H, W)), "mask": Arr(N, (H, W)),
-            "trace": {"fl1_raw": [NdArray.of([0.0] * SPE)] * N,
-                      "fl2_raw": [NdArray.of([0.0] * SPE)] * N},
-            "fl1_max": Arr(N), "fl2_max": Arr(N),
         }
+        if channels:
+            feats["trace"] = {
+                f"fl{c}_raw": [NdArray.of([0.0] * SPE)] * N
+                for c in channels}
+        for c in channels:
+            feats[f"fl{c}_max"] = Arr(N)
         cfg = Cfg()
-        for sec in ("experiment", "imaging", "setup", "fluorescence"):
+        secs = ["experiment", "imaging", "setup"]
+        if channels:
+            secs.append("fluorescence")
+        for sec in secs:
             if sec not in self.cfgkeys:
                 raise AnalysisError(f"metadata section {sec} vanished")
             cfg[sec] = {k: 1.0 for k in self.cfgkeys[sec]}
         cfg["experiment"]["event count"] = N
         cfg["imaging"].update({"roi size x": W, "roi size y": H})
-        fl = cfg["fluorescence"]
-        for k in list(fl):
-            if k.startswith(("channel 3", "laser 2", "laser 3")):
-                del fl[k]
-        fl.update({"channel count": 2, "laser count": 1,
-                   "samples per event": SPE, "laser 1 power": 10.0})
+        if channels:
+            fl = cfg["fluorescence"]
+            for k in list(fl):
+                if k.startswith(("laser 2", "laser 3")) or (
+                        k.startswith("channel ") and k.endswith(" name")
+                        and int(k.split()[1]) not in channels):
+                    del fl[k]
+            fl.update({"channel count": len(channels), "laser count": 1,
+                       "samples per event": SPE, "laser 1 lambda": 488.0,
+                       "laser 1 power": 10.0})
         h5 = H5Group(file)
         ev = H5Group(file, "/events")
         h5["events"] = ev
@@ -262,9 +282,24 @@ class Model:
                 filter=Namespace("filter", all=Namespace("all", n_true=N)))
         return ds
 
-    def run_method(self, name, ds, has_fl=True, **kwargs):
+    def has_fluorescence(self, ds):
+        """the interpreted property IntegrityChecker.has_fluorescence"""
+        f = self.methods.get("has_fluorescence")
+        if f is None:
+            raise AnalysisError("IntegrityChecker.has_fluorescence vanished")
+        self.interp.steps = 0
+        me = Namespace("self", ds=ds, warn_cues=[])
+        try:
+            return bool(Func(f, self.globs, self.interp)(me))
+        except ModelRaise as e:
+            raise AnalysisError(f"has_fluorescence raises {e} on the model "
+                                "dataset")
+
+    def run_method(self, name, ds, has_fl=None, **kwargs):
         """cues of one interpreted check method"""
         f = self.methods[name]
+        if has_fl is None:
+            has_fl = self.has_fluorescence(ds)
         self.interp.steps = 0
         me = Namespace("self", ds=ds, has_fluorescence=has_fl, warn_cues=[])
         return Func(f, self.globs, self.interp)(me, **kwargs)
@@ -331,37 +366,46 @@ def r131(ctx, repo, model, pattern, sets):
         return None
 
     def seeded(cls_label, designated, label, mutate, match, what,
-               fluor=False):
-        ds = model.base()
+               fluor=False, channels=(1, 2)):
+        ds = model.base(channels)
         mutate(ds)
         hit = search(designated, ds, match)
         node = model.methods.get(designated, cls)
-        ok = hit is not None and hit in (s_fl if fluor else s_nofl)
+        # which checks the collector runs for this dataset: classes that
+        # are not about fluorescence must be found without it
+        runs = s_fl if fluor and model.has_fluorescence(ds) else s_nofl
+        ok = hit is not None and hit in runs
         if hit is None:
             msg = (f"{what}: no check method run by the collector reports "
                    "it as a violation")
         elif not ok:
             msg = (f"{what}: only reported by {hit}, which the collector "
-                   "skips for datasets without fluorescence")
+                   "skips " + ("because has_fluorescence is False for a "
+                               f"dataset with channel(s) {channels}"
+                               if fluor else "for datasets without "
+                               "fluorescence"))
         else:
             msg = f"{what} -> violation from {hit}"
         ctx.ob("R13.1", ok, msg, node=node,
                key=f"{CHK}::{cls_label}::{label}")
 
-    def clean(cls_label, designated):
+    def clean(cls_label, designated, channels=(1, 2), mutate=None,
+              label="consistent dataset accepted"):
         if designated not in model.methods:
             return
+        ds = model.base(channels)
+        if mutate is not None:
+            mutate(ds)
         try:
-            v = violations(designated, model.base())
+            v = violations(designated, ds)
         except ModelRaise as e:
             raise AnalysisError(f"{designated} raises {e} on the model "
                                 "dataset")
         ctx.ob("R13.1", not v,
-               f"{designated}: the consistent model dataset gets no "
-               "violation" if not v else
-               f"{designated} reports the consistent model dataset: "
+               f"{designated}: {label} - no violation" if not v else
+               f"{designated} reports a consistent model dataset ({label}): "
                f"'{v[0].msg}'", node=model.methods[designated],
-               key=f"{CHK}::{cls_label}::consistent dataset accepted")
+               key=f"{CHK}::{cls_label}::{label}")
 
     def has(txt_):
         return lambda c: txt_ in c.msg
@@ -514,6 +558,87 @@ def r131(ctx, repo, model, pattern, sets):
                fluor=True)
     clean("samples per event", "check_fl_samples_per_event")
 
+    # 6-8 again on datasets that have one single fluorescence channel:
+    # the collector only runs the check_fl_* methods when has_fluorescence
+    # (interpreted) says so for that dataset
+    for ch in ((2,), (3,)):
+        tag = f"channel {ch[0]} only"
+        for val in (0, 2):
+            def m(ds, val=val):
+                ds.config["fluorescence"]["channel count"] = val
+            seeded("channel count", "check_fl_num_channels",
+                   f"channel count {val}, {tag}", m,
+                   key_is("fluorescence", "channel count"),
+                   f"channel count {val} with one named channel (fl{ch[0]})",
+                   fluor=True, channels=ch)
+
+            def m(ds, val=val):
+                ds.config["fluorescence"]["laser count"] = val
+            seeded("laser count", "check_fl_num_lasers",
+                   f"laser count {val}, {tag}", m,
+                   key_is("fluorescence", "laser count"),
+                   f"laser count {val} with one active laser (fl{ch[0]} "
+                   "only)", fluor=True, channels=ch)
+        for val in (SPE - 1, SPE + 1):
+            def m(ds, val=val):
+                ds.config["fluorescence"]["samples per event"] = val
+            seeded("samples per event", "check_fl_samples_per_event",
+                   f"samples per event {val}, {tag}", m,
+                   key_is("fluorescence", "samples per event"),
+                   f"samples per event {val} for traces of {SPE} samples "
+                   f"(fl{ch[0]} only)", fluor=True, channels=ch)
+        for key in imp_fl.get("fluorescence", []):
+            if key not in model.cfgkeys.get("fluorescence", []):
+                continue
+
+            def m(ds, key=key):
+                del ds.config["fluorescence"][key]
+            seeded("missing metadata", "check_metadata_missing",
+                   f"[fluorescence] {key}, {tag}", m,
+                   key_is("fluorescence", key),
+                   f"missing [fluorescence] '{key}' (fl{ch[0]} only)",
+                   fluor=True, channels=ch)
+        clean("channel count", "check_fl_num_channels", channels=ch,
+              label=f"consistent dataset accepted, {tag}")
+
+    # 7 (specification of the laser count, as coded and as the metadata
+    # description says: "laser N power ... may be present (but must be set
+    # to 0) if a laser line is not used"): a laser counts iff both its
+    # lambda and its power key are present and the power is non-zero
+    def off_laser(ds):      # described, switched off
+        ds.config["fluorescence"].update(
+            {"laser 2 lambda": 561.0, "laser 2 power": 0.0})
+
+    def on_laser_zero_lambda(ds):   # mirrored: power on, lambda 0
+        ds.config["fluorescence"].update(
+            {"laser 2 lambda": 0.0, "laser 2 power": 5.0})
+
+    def no_power_key(ds):   # described without a power key
+        ds.config["fluorescence"].update({"laser 3 lambda": 640.0})
+
+    def no_lambda_key(ds):  # power without a description
+        ds.config["fluorescence"].update({"laser 3 power": 7.0})
+    for label, setup, active in (
+            ("described laser with power 0", off_laser, 1),
+            ("laser with power but lambda 0", on_laser_zero_lambda, 2),
+            ("laser lambda without power key", no_power_key, 1),
+            ("laser power without lambda key", no_lambda_key, 1)):
+        def ok_m(ds, setup=setup, active=active):
+            setup(ds)
+            ds.config["fluorescence"]["laser count"] = active
+        clean("laser count", "check_fl_num_lasers", mutate=ok_m,
+              label=f"{label}: laser count {active} accepted")
+        wrong = 3 - active
+
+        def bad_m(ds, setup=setup, wrong=wrong):
+            setup(ds)
+            ds.config["fluorescence"]["laser count"] = wrong
+        seeded("laser count", "check_fl_num_lasers",
+               f"{label}: laser count {wrong}", bad_m,
+               key_is("fluorescence", "laser count"),
+               f"{label}, laser count {wrong} (active lasers: {active})",
+               fluor=True)
+
     # 9 external links
     def ext_link(ds):
         ds.h5file["events"]["trace"]["fl3_raw"] = H5Dataset(
@@ -625,6 +750,24 @@ def r132(ctx, repo, model, pattern, chk):
                + "; ".join(problems), node=chk,
                key=f"{CHK}::IntegrityChecker.check::collects all "
                f"(fluorescence={has_fl})")
+    # has_fluorescence (interpreted) on datasets with exactly one / no
+    # fluorescence channel
+    hf = model.methods.get("has_fluorescence")
+    for ch in ((), (1,), (2,), (3,), (1, 2, 3)):
+        got = model.has_fluorescence(model.base(ch))
+        want = bool(ch)
+        what = ("no fluorescence feature" if not ch else
+                "only " + ", ".join(f"fl{c}_max" for c in ch))
+        ctx.ob("R13.2", got == want,
+               f"has_fluorescence is {want} for a dataset with {what}"
+               if got == want else
+               f"has_fluorescence is {got} for a dataset with {what}: "
+               + ("every check_fl_* is skipped and the mandatory "
+                  "fluorescence keys are not required" if want else
+                  "fluorescence metadata are demanded from a dataset "
+                  "without fluorescence"), node=hf,
+               key=f"{CHK}::IntegrityChecker.has_fluorescence::{what}")
+
     # refuses filtered datasets instead of silently checking a subset
     ds = model.base()
     ds.filter.all.n_true = N - 1
@@ -1007,7 +1150,7 @@ def run(ctx):
     ctx.rule("R13.1", "each of the ten inconsistency classes, seeded into "
              "the model dataset, is reported as a violation by a collected "
              "check; the consistent model dataset is accepted; mandatory "
-             "keys are defined and not optional", minimum=95)
+             "keys are defined and not optional", minimum=140)
     ctx.rule("R13.2", "collector runs every check_* once without early "
              "exit; checks return lists; levels known to ordering and "
              "routing; CLI exit codes as documented", minimum=40)
@@ -1331,4 +1474,55 @@ TWINS = [
     ("index check with an explicit range", CHK,
      ('np.all(self.ds["index"] == np.arange(1, lends + 1))',
       'np.all(self.ds["index"] == np.arange(lends) + 1)')),
+]
+
+# seeded changes (each passed the pinned suite)
+MUTANTS = list(MUTANTS) + [
+    ("has_fluorescence forgets channel 3", CHK,
+     ('                or "fl2_max" in self.ds\n'
+      '                or "fl3_max" in self.ds):',
+      '                or "fl2_max" in self.ds):'), "R13"),
+    ("has_fluorescence refactored with range(1, 3)", CHK,
+     ('        if ("fluorescence" in self.ds\n'
+      '                or "fl1_max" in self.ds\n'
+      '                or "fl2_max" in self.ds\n'
+      '                or "fl3_max" in self.ds):\n'
+      '            fl = True\n        else:\n            fl = False\n'
+      '        return fl\n',
+      '        return ("fluorescence" in self.ds\n'
+      '                or any(f"fl{ii}_max" in self.ds '
+      'for ii in range(1, 3)))\n'), "R13"),
+    ("laser counted by its wavelength instead of its power", CHK,
+     ('                        self.ds.config["fluorescence"][kp] != 0):',
+      '                        self.ds.config["fluorescence"][kl] != 0):'),
+     "R13.1"),
+    ("laser counted without a power key", CHK,
+     ('                if (kl in self.ds.config["fluorescence"] and\n'
+      '                        kp in self.ds.config["fluorescence"] and\n'
+      '                        self.ds.config["fluorescence"][kp] != 0):',
+      '                if (kl in self.ds.config["fluorescence"] and\n'
+      '                        self.ds.config["fluorescence"].get(kp) '
+      '!= 0):'), "R13.1"),
+    ("switched-off lasers counted", CHK,
+     ('                        kp in self.ds.config["fluorescence"] and\n'
+      '                        self.ds.config["fluorescence"][kp] != 0):',
+      '                        kp in self.ds.config["fluorescence"]):'),
+     "R13.1"),
+]
+TWINS = list(TWINS) + [
+    ("has_fluorescence refactored with range(1, 4)", CHK,
+     ('        if ("fluorescence" in self.ds\n'
+      '                or "fl1_max" in self.ds\n'
+      '                or "fl2_max" in self.ds\n'
+      '                or "fl3_max" in self.ds):\n'
+      '            fl = True\n        else:\n            fl = False\n'
+      '        return fl\n',
+      '        return ("fluorescence" in self.ds\n'
+      '                or any(f"fl{ii}_max" in self.ds '
+      'for ii in range(1, 4)))\n')),
+    ("laser power looked up with a default", CHK,
+     ('                        kp in self.ds.config["fluorescence"] and\n'
+      '                        self.ds.config["fluorescence"][kp] != 0):',
+      '                        self.ds.config["fluorescence"].get(kp, 0) '
+      '!= 0):')),
 ]
